@@ -105,6 +105,15 @@ impl BindgenContext {
     #[verifier::external_body] pub fn no_debug_by_name(&self, it: &Item) -> (r: bool) ensures r == self.s_no_debug_by_name(it) { unimplemented!() }
     #[verifier::external_body] pub fn no_default_by_name(&self, it: &Item) -> (r: bool) ensures r == self.s_no_default_by_name(it) { unimplemented!() }
     #[verifier::external_body] pub fn lookup_can_derive_partialeq_or_partialord(&self, id: ItemId) -> (r: CanDerive) ensures r == self.s_peq_or_pord(id) { unimplemented!() }
+    // the rest of the lookup_can_derive_* family (env completeness rule): the raw analysis answers, before options and annotations
+    pub uninterp spec fn s_lookup_debug(&self, id: ItemId) -> bool;
+    pub uninterp spec fn s_lookup_default(&self, id: ItemId) -> bool;
+    pub uninterp spec fn s_lookup_copy(&self, id: ItemId) -> bool;
+    pub uninterp spec fn s_lookup_hash(&self, id: ItemId) -> bool;
+    #[verifier::external_body] pub fn lookup_can_derive_debug(&self, id: ItemId) -> (r: bool) ensures r == self.s_lookup_debug(id) { unimplemented!() }
+    #[verifier::external_body] pub fn lookup_can_derive_default(&self, id: ItemId) -> (r: bool) ensures r == self.s_lookup_default(id) { unimplemented!() }
+    #[verifier::external_body] pub fn lookup_can_derive_copy(&self, id: ItemId) -> (r: bool) ensures r == self.s_lookup_copy(id) { unimplemented!() }
+    #[verifier::external_body] pub fn lookup_can_derive_hash(&self, id: ItemId) -> (r: bool) ensures r == self.s_lookup_hash(id) { unimplemented!() }
 }
 impl Item {
     pub uninterp spec fn s_id(&self) -> ItemId;
